@@ -440,7 +440,8 @@ class C03(Prop):
     cmd = "c03"
     cases = {"quick": 300, "thorough": 10000}
     rule = ("files written by gen/xlsxgen.py (grammar over the file: t = s / str / inlineStr / b / e / n / absent, rich and phonetic strings, shared-formula blocks with masters and children at all offsets incl. "
-            "references before the master and $-locked parts, xml:space, entities and character references in text and in every attribute channel, optional row/col attributes, cellXfs resolution) and every "
+            "references before the master and $-locked parts, formulas with cached results of every kind, xml:space, entities and character references in text and in every attribute channel incl. table columns, "
+            "optional row/col attributes, cellXfs resolution incl. <numFmts> entries that redefine built-in ids) and every "
             "non-empty corpus file; distinct = distinct files")
     assumptions = ["oracle for generated files: the intent recorded by the generator (formulas rendered from its AST); every generated file must also pass our own validator and agree with our own decoder, otherwise it is set aside as a generator problem (inconclusive)",
                    "oracle for corpus files: monitors/xlsx_decode.py; shared-formula children whose master the conservative shifter cannot tokenise are inconclusive cells",
@@ -462,6 +463,8 @@ class C03(Prop):
                 continue
             open(os.path.join(out, "gen-%d.xlsx" % sd), "wb").write(data)
             good.append(sd)
+            for ft in intent["features"]:
+                v.features[ft] = v.features.get(ft, 0) + 1
         corpus = sorted(p for p in glob.glob("/repo/tests/test_files/*.xls[xm]") if os.path.getsize(p) > 0)
         with open(os.path.join(out, "list.txt"), "w") as f:
             for sd in good:
